@@ -1,5 +1,6 @@
 #!/bin/bash
 # check.sh <PROPERTY> quick|thorough  -- decide one property on /repo's current working tree.
+# check.sh replay <file>             -- re-decide the one obligation recorded in a replay file (VIOLATION ... replay=<file>).
 # The analyzer is rebuilt from /verif/kvcheck when its sources are newer than the binary.
 set -u
 cd "$(dirname "$0")"
@@ -8,5 +9,8 @@ PROP=${1:?property id}
 TIER=${2:-${VERIF_TIER:-quick}}
 if [ ! -x bin/kvcheck ] || [ -n "$(find kvcheck -name '*.go' -newer bin/kvcheck 2>/dev/null | head -1)" ]; then
   KV_SKIP_UNIT=1 ./setup.sh >/dev/null 2>&1 || { echo "VIOLATION property=$PROP replay=- undecided: analyzer does not build"; exit 1; }
+fi
+if [ "$PROP" = replay ]; then
+  exec ./bin/kvcheck -replay "${2:?replay file}" -repo "${KV_REPO:-/repo}" -verif "$(pwd)"
 fi
 exec ./bin/kvcheck -prop "$PROP" -tier "$TIER" -repo "${KV_REPO:-/repo}" -verif "$(pwd)"
